@@ -162,6 +162,10 @@ class BaseNode(Node):
             return
         if isinstance(value, (IntegerType, FloatType)):
             value.unit = node.units_raw
+            if node.units_raw and not self.units_raw:
+                # this node has no unit: only a dimensionless unit (%, m/km ...) converts into a plain number
+                value.convert('1', env)
+                value.unit = None
             value.convert(self.units_raw, env)
         self.set_value(value.value)
 
